@@ -58,6 +58,50 @@ def check_history(h, F0, fails):
     return worst
 
 
+PRESENT_KEYS = ("F0_layout", "spelling")
+
+
+def presentation_plan(rng, tier):
+    """histories whose ARGUMENTS are presented differently (same values): starting F Fortran-ordered / strided / read-only, the
+    velocity gradient handed back as a non-contiguous view of a caller's table / a read-only array / a Fortran-ordered array,
+    phase / fabric / regime (and get_regime's result) as enum members or numpy integers"""
+    plan = [("F0_layout", "fortran"), ("F0_layout", "strided"), ("F0_layout", "readonly"),
+            ("lkind", "L_view"), ("lkind", "L_readonly"), ("lkind", "L_fortran"), ("spelling", "enum")]
+    if tier != "quick":
+        plan = plan * 3 + [("spelling", "np.uint8"), ("spelling", "np.int64")]
+    out = []
+    for j, (key, val) in enumerate(plan):
+        sc = MT.scenario(rng, regime=int((4, 6, 0, 7)[j % 4]), n=int(rng.integers(2, 10)), nupd=2,
+                         lkind=("general", "trace", "time", "simple")[int(rng.integers(4))])
+        sc[key] = val
+        if key == "spelling" and j % 2 == 0:
+            r2 = int((6, 4, 7, 0)[j % 4])
+            sc["regime_switch"], sc["regime_switch_update"] = [sc["regime"], r2, 0.0], float(rng.uniform(0.3, 0.7))
+        out.append(sc)
+    return out
+
+
+def presentation_fails(rec, sc, F0, chk=None, bad=None):
+    """one presented history: C06's oracle on it, and - where the plain presentation is expressible from the same scenario (layout
+    of F0, spelling of the ordinals) - bit-identity of returned F and stored textures with the plain run"""
+    h = c01.run_history(rec, sc, F0=F0)
+    if chk is not None:
+        c01.validate_traces(chk, h, bad)
+    fails = [f for f in h["fails"]]
+    worst = check_history(h, F0, fails)
+    if any(k in sc for k in PRESENT_KEYS) and not h["fails"]:
+        hp = c01.run_history(rec, {k: v for k, v in sc.items() if k not in PRESENT_KEYS}, F0=F0)
+        same = (len(hp["F_hist"]) == len(h["F_hist"]) and all(np.array_equal(a, b) for a, b in zip(hp["F_hist"], h["F_hist"]))
+                and all(np.array_equal(np.asarray(a), np.asarray(b)) for a, b in zip(hp["mineral"].orientations, h["mineral"].orientations))
+                and all(np.array_equal(np.asarray(a), np.asarray(b)) for a, b in zip(hp["mineral"].fractions, h["mineral"].fractions)))
+        if not same:
+            what = ", ".join(f"{k} = {sc[k]}" for k in PRESENT_KEYS if k in sc)
+            dF = max((float(np.abs(a - b).max()) for a, b in zip(hp["F_hist"], h["F_hist"])), default=float("nan"))
+            fails.append((0, f"the same values presented differently ({what}) change the result: returned F differs from the plain "
+                             f"presentation by {dF:.3e}"))
+    return h, fails, worst
+
+
 def run(chk):
     ok, br = proofs.prove(chk, FILES, PROP, groups=("core",), gen_modules=MT.GLUE_TIE_GEN)
     chk.cov["trusted_base"] = common.TRUSTED_COMMON + [MT.GLUE_TIE_TRUSTED,
@@ -68,7 +112,9 @@ def run(chk):
                        "all accepted regimes incl. the null regimes, 1..4 updates; each update: returned F vs the model (exact) and vs an "
                        "independent DOP853 integration; paired runs: different minerals / split vs whole interval / bulk update; flows that take exactly the same "
                        "value at the start, midpoint and end of every update but vary in between (whole cosine periods, pulses, shear zones along a straight "
-                       "pathline, closed pathlines; one history per family [thorough: 6]); non-trivial = F changed")
+                       "pathline, closed pathlines; one history per family [thorough: 6]); presentations of the arguments (starting F Fortran-ordered / strided / read-only, "
+                       "L handed back as a view of a caller's table / read-only / Fortran-ordered, ordinals as enum members or numpy integers: oracle + bit-identity with the "
+                       "plain presentation); non-trivial = F changed")
     bad, mon = [], []
     rng = np.random.default_rng(chk.seed)
     import pydrex
@@ -123,6 +169,16 @@ def run(chk):
                     dF = float(np.abs(F1 - h["F_hist"][-1]).max() / np.abs(h["F_hist"][-1]).max())
                     if dF > 2 * (5e-3 + 1e-3 * (sc["nupd"] + 2 * h["strain"])):
                         mon.append((sc, sc["nupd"] - 1, f"split interval and whole interval give different F: {dF:.3e}", F0))
+            # the same values presented differently (memory layout of F0, storage of the returned L, spelling of the ordinals)
+            rngp = np.random.default_rng([chk.seed, 0xC06E])
+            ph = chk.cov.setdefault("presentation_histories", {})
+            for sc in presentation_plan(rngp, chk.tier):
+                F0 = random_F0(rngp)
+                _, fails, w = presentation_fails(rec, sc, F0, chk, bad)
+                worst = max(worst, w)
+                mon += [(sc, k, m, F0) for k, m in fails]
+                key = next((f"{k}={sc[k]}" for k in PRESENT_KEYS if k in sc), "L=" + sc["lkind"])
+                ph[key] = ph.get(key, 0) + 1
             # block-boundary grain counts (trace validation of the rate kernel at those sizes; F as above)
             for sc in MT.block_scenarios(np.random.default_rng([chk.seed, 0xB10C]), chk.tier, regimes=(4, 6, 0),
                                          sizes=(64, 128, 129, 1024) if chk.tier == "quick" else None):
@@ -174,9 +230,7 @@ def replay(d):
     sc["pair"] = tuple(sc["pair"])
     F0 = np.array([common.unhx(x) for x in d["F0"]]).reshape(3, 3)
     with MT.Recorder() as rec:
-        h = c01.run_history(rec, sc, F0=F0)
-    fails = list(h["fails"])
-    check_history(h, F0, fails)
+        _, fails, _ = presentation_fails(rec, sc, F0)
     for k, m in fails:
         print("still fails:", k, m)
     return 1 if fails else 0
